@@ -189,6 +189,17 @@ def run(chk):
             rng.shuffle(lab)
             rows.append((r, lab))
     del big
+    # runs of conditionals: chains of 3-5 statements (program order forced by the edges) over the guards
+    # {true, c, not c, d, not d, c and d}: adjacent equal / complementary guards are what the lowering merges
+    ND = ["not", D]
+    gpool = [["cb", True], C, ["not", C], D, ND, ["and", [C, D]]]
+    for n in (3, 4, 5):
+        combos = list(itertools.product(range(len(gpool)), repeat=n))
+        if n == 5:
+            combos = rng.sample(combos, 1500 if chk.quick else len(combos))
+        for combo in combos:
+            rows.append(({"stmts": [{"deps": [k] if k else [], "nop": False, "guard": gpool[g], "loops": []}
+                                    for k, g in enumerate(combo)], "src": "phasegen"}, "case"))
     n_gen = len(rows)
     chk.stage("phasegen")
     seeds = [1] if chk.quick else [1, 2, 3]
@@ -199,6 +210,9 @@ def run(chk):
     for lo in range(0, len(rows), CHUNK):
         cases = []
         for r, lab in rows[lo:lo + CHUNK]:
+            if lab == "case":
+                cases.append(r)
+                continue
             c = phase_case(r)
             if lab is not None:
                 c["labels"] = lab
